@@ -15,6 +15,7 @@ package main
 
 import (
 	"fmt"
+	"go/ast"
 	"go/token"
 	"go/types"
 	"math"
@@ -143,6 +144,38 @@ func newC20m(c *Ctx) (*c20m, *types.Func) {
 	}
 	h := newShpModel(c, nil)
 	m := &c20m{c: c, h: h, it: h.it, defined: map[string]string{}, addDef: c.P.Func("proj", "addDef")}
+	if m.addDef == nil {
+		// by signature: the function of two strings (name, definition text) the init functions call
+		pk := c.P.Pkg("proj")
+		called := map[*types.Func]bool{}
+		for _, file := range pk.Syntax {
+			for _, d := range file.Decls {
+				if fd, ok := d.(*ast.FuncDecl); ok && fd.Recv == nil && fd.Name.Name == "init" && fd.Body != nil {
+					ast.Inspect(fd.Body, func(n ast.Node) bool {
+						if call, ok := n.(*ast.CallExpr); ok {
+							if g := callee(pk.TypesInfo, call); g != nil {
+								called[g] = true
+							}
+						}
+						return true
+					})
+				}
+			}
+		}
+		for g := range called {
+			sig := g.Type().(*types.Signature)
+			if c.P.Decl(g) == nil || sig.Params().Len() != 2 {
+				continue
+			}
+			b0, ok0 := sig.Params().At(0).Type().Underlying().(*types.Basic)
+			b1, ok1 := sig.Params().At(1).Type().Underlying().(*types.Basic)
+			if ok0 && ok1 && b0.Kind() == types.String && b1.Kind() == types.String {
+				if m.addDef == nil || c.P.FuncName(g) < c.P.FuncName(m.addDef) {
+					m.addDef = g
+				}
+			}
+		}
+	}
 	m.err = oIface{opaque: &oOpaque{name: "error", isError: true}}
 	m.it.symbolic = true
 	m.it.maxDepth = 48
@@ -710,7 +743,24 @@ func c20names(c *Ctx, m *c20m, run func(string) (*oStruct, string), pos token.Po
 	pk := c.P.Pkg("proj")
 	strT := types.Typ[types.String]
 	var defsMap *oMap
-	if o := pk.Types.Scope().Lookup("defs"); o != nil {
+	regVar := pk.Types.Scope().Lookup("defs")
+	if regVar == nil {
+		// by type: the package-level map from names to spatial references
+		for _, n := range pk.Types.Scope().Names() {
+			v, ok := pk.Types.Scope().Lookup(n).(*types.Var)
+			if !ok {
+				continue
+			}
+			if mt, ok := v.Type().Underlying().(*types.Map); ok {
+				if kb, ok := mt.Key().Underlying().(*types.Basic); ok && kb.Kind() == types.String {
+					if pt, ok := mt.Elem().(*types.Pointer); ok && named(pt.Elem()) == c.P.NamedType("proj", "SR") {
+						regVar = v
+					}
+				}
+			}
+		}
+	}
+	if o := regVar; o != nil {
 		if cell := m.it.global(o); cell != nil {
 			if mp, ok := (*cell).(oMap); ok {
 				defsMap = &mp
